@@ -4,7 +4,8 @@ from common import Failure
 from props._base import *  # noqa
 from refids import ref_res, ref_children_set, ref_decode, MAXV
 
-LEAN_MODULES = ['A5.Props.C10']
+LEAN_MODULES = ['A5.Props.C10', 'A5.Props.SrcTie.Uncompact']
+SRC_TIE = True
 LEVEL = 'proof'
 EXPLANATION = ('Lean theorem for every list of valid ids (any length/order/duplicates) and every target 0..29: uncompact = concatenation, in input order and with multiplicity, of '
                'cell_to_children(cell, t); length = sum of get_num_children; every output cell is valid, at resolution t and maps back to its source; a finer input cell makes it raise '
